@@ -293,7 +293,23 @@ def oracle_history(ck, n_ops, n_threads):
             try:
                 if grad:
                     xg = x.clone().requires_grad_(True)
-                    out = flat_out(mod(xg))
+                    raw = mod(xg)
+                    out = flat_out(raw)
+                    # the recorded call is a value too: pulling the same cotangent back twice through it gives the same gradient
+                    # (a backward pass that consumes or overwrites what the forward pass stored makes the result depend on history)
+                    def _live(o):
+                        if isinstance(o, torch.Tensor):
+                            return [o] if (o.requires_grad and o.numel()) else []
+                        return [] if o is None else [t for u in o for t in _live(u)]
+                    outs = _live(raw)
+                    if outs:
+                        cots = [torch.cos(torch.arange(o.numel(), dtype=torch.float64)).reshape(o.shape).to(o.dtype) for o in outs]
+                        g1 = torch.autograd.grad(outs, xg, cots, retain_graph=True, allow_unused=True)[0]
+                        g2 = torch.autograd.grad(outs, xg, cots, retain_graph=True, allow_unused=True)[0]
+                        if (g1 is None) != (g2 is None) or (g1 is not None and not torch.equal(g1, g2)):
+                            with lock:
+                                failures.append(('%s on %s %s: back-propagating the same cotangent a second time through the same recorded call gives another gradient (max |diff| %.3g): the first backward pass changed what the call had recorded'
+                                                 % (name, tuple(x.shape), dt, float((g1 - g2).abs().max()) if g1 is not None and g2 is not None else float('nan')), (ci, si, str(dt))))
                 else:
                     with torch.no_grad():
                         out = flat_out(mod(x))
